@@ -45,9 +45,13 @@
       `parseBlocks_para_nested`) is stated for one-line paragraphs.  The inline half `parseInline_span` already
       covers LF inside `T` (text child = `T` with LF → space);
     * inside containers: the line is TAB-FREE (C06's restriction) and `depthCost w < max_nesting`.
-  OPEN: the multi-line generalisation (a span running over several lines of a paragraph) at document level —
-  missing lemma: `parseBlocks` on a paragraph of `n` lines gives `InlineRoot (lines joined by LF) table` with an
-  `n`-entry table, and `parseInline_span` for an `n`-entry table (`C05I.single_translate` is used for the ranges).
+  OPEN: the multi-line generalisation (a span running over several lines of a paragraph) at document level.
+  Behaviour by evaluation in the last example of section 5 (LF → space, continuation-line indentation KEPT, a line
+  of `T` that starts a block ends the paragraph).  Missing lemmas: (a) `parseBlocks` on a paragraph of `n` lines
+  none of which (from the second on) lets a rule of the chain fire in silent mode gives
+  `Paragraph[InlineRoot (lines joined by LF) table]` with an `n`-entry table — `Block.parseBlocks_line` is the case
+  `n = 1`, `lazyScan` needs the hypothesis per line; (b) `C11S.parseInline_span` for an `n`-entry table (only the
+  RANGES use the table, through `C05I.single_translate`; kinds and payloads do not depend on it).
 -/
 import MdIt.Lemmas.C11SpanDoc
 import MdIt.Lemmas.C11SpanPara
@@ -73,7 +77,7 @@ structure SpanLine (pre T post : List Char) (k : Nat) : Prop where
   preCR : '\r' ∉ pre
   postCR : '\r' ∉ post
   /-- the line does not end with a blank -/
-  postEnd : ∀ c, post.getLast? = some c → Inline.isSpTab c = false
+  postEnd : ∀ c ∈ post.getLast?, Inline.isSpTab c = false
   /-- `T`: not empty, no line terminator, no run of `k + 1` backticks -/
   ne : T ≠ []
   line : NoTerm T
@@ -426,5 +430,180 @@ theorem doc_span_render_nested (hsp : cfg.sourcepos = false) (x : Bool) :
   exact this
 
 end nested
+
+/-! ## 5. instances on the stock chains, and the necessity of the hypotheses -/
+
+section examples
+
+/-- `newline`, `escape` — what stands between `text` and `backticks` in the stock inline chain — are quiet at a backtick -/
+theorem quietTick_stock : ∀ r ∈ [Inline.RuleId.newline, .escape], QuietTick r := by
+  intro r hr
+  simp only [List.mem_cons, List.not_mem_nil, or_false] at hr
+  rcases hr with rfl | rfl <;> exact ⟨(by intro e; cases e), (by intro csw e; cases e)⟩
+
+/-- the payload `<b>&amp;*x*\[` — markup, an entity, emphasis, an escape, a bracket — between `a ` and ` b`, two backticks -/
+def exT : List Char := ['<', 'b', '>', '&', 'a', 'm', 'p', ';', '*', 'x', '*', '\\', '[']
+
+theorem exLine : SpanLine ['a', ' '] exT [' ', 'b'] 1 :=
+  ⟨⟨'a', [' '], rfl, by decide⟩, by decide, by decide, by decide, by decide, by decide, by decide, by decide, by decide⟩
+
+/-- the line, spelled out -/
+example : ['a', ' '] ++ spanOf 1 exT ++ [' ', 'b'] = "a `` <b>&amp;*x*\\[ `` b".toList := by decide +kernel
+
+/-- `doc_span_render` applies on the stock configuration (both serializers) … -/
+example (x : Bool) : renderDoc x (exCfg false 100) (['a', ' '] ++ spanOf 1 exT ++ [' ', 'b']) =
+    .ok ("<p>".toList ++ codeHtml (Render.nulStr ['a', ' ']) (Render.nulStr exT) (Render.nulStr [' ', 'b']) ++
+      "</p>\n".toList) :=
+  doc_span_render (exCfg false 100) _ _ _ 1 exLine [.newline, .escape] _ rfl quietTick_stock
+    [.code, .fence, .blockquote, .hr, .list, .reference, .heading, .lheading] [] rfl (by decide) (by decide) rfl x
+
+/-- … and that is this string: the payload verbatim, `< > &` escaped, nothing interpreted -/
+example : "<p>".toList ++ codeHtml (Render.nulStr ['a', ' ']) (Render.nulStr exT) (Render.nulStr [' ', 'b']) ++ "</p>\n".toList =
+    "<p>a <code>&lt;b&gt;&amp;amp;*x*\\[</code> b</p>\n".toList := by decide +kernel
+
+/-- the tree of `doc_span_verbatim`: `Root[Paragraph[Text "a ", CodeInline[Text T], Text " b"]]` — the span over
+    bytes 2 .. 21, `T` over bytes 5 .. 18 -/
+example : parseDoc (exCfg false 100) (['a', ' '] ++ spanOf 1 exT ++ [' ', 'b']) =
+    .ok ⟨.blk .root, some (0, 23), [],
+      [⟨.blk .paragraph, some (0, 23), [],
+        [⟨.inl (.text ['a', ' ']), some (0, 2), [], []⟩,
+         ⟨.inl (.codeInline '`' 2), some (2, 21), [], [⟨.inl (.text exT), some (5, 18), [], []⟩]⟩,
+         ⟨.inl (.text [' ', 'b']), some (21, 23), [], []⟩]⟩]⟩ := by
+  have h := doc_span_verbatim (exCfg false 100) _ _ _ 1 exLine [.newline, .escape] _ rfl quietTick_stock
+    [.code, .fence, .blockquote, .hr, .list, .reference, .heading, .lheading] [] rfl (by decide) (by decide) rfl
+  have hE : Lines.byteLen (['a', ' '] ++ spanOf 1 exT ++ [' ', 'b']) = 23 := by decide +kernel
+  have hn : spanNodes (fun _ => []) 0 1 ['a', ' '] exT [' ', 'b'] =
+      [⟨.inl (.text ['a', ' ']), some (0, 2), [], []⟩,
+       ⟨.inl (.codeInline '`' 2), some (2, 21), [], [⟨.inl (.text exT), some (5, 18), [], []⟩]⟩,
+       ⟨.inl (.text [' ', 'b']), some (21, 23), [], []⟩] := by
+    have e1 : Lines.byteLen ['a', ' '] = 2 := by decide +kernel
+    have e2 : Lines.byteLen exT = 13 := by decide +kernel
+    have e3 : Lines.byteLen [' ', 'b'] = 2 := by decide +kernel
+    have e4 : CodePair.normalise exT = exT := by decide +kernel
+    simp [spanNodes, txtN, codeN, e1, e2, e3, e4]
+  rw [h, hE, hn]
+
+/-- `doc_span_render_nested` applies: a bullet item in a block quote — the innermost wrapper is the item, so it is
+    TIGHT (`<li>` directly around the inline HTML) … -/
+example (x : Bool) :
+    renderDoc x (exCfg false 100) (wrapAll [.quote, .bullet '-'] (['a', ' '] ++ spanOf 1 exT ++ [' ', 'b'])) =
+      .ok (spanHtml [.quote, .bullet '-']
+        (codeHtml (Render.nulStr ['a', ' ']) (Render.nulStr exT) (Render.nulStr [' ', 'b']))) :=
+  doc_span_render_nested (exCfg false 100) _ _ _ 1 exLine (by decide +kernel) [.newline, .escape] _ rfl quietTick_stock
+    [.code, .fence, .blockquote, .hr, .list, .reference, .heading, .lheading] [] rfl (by decide)
+    [.quote, .bullet '-'] (by decide) (chainFor_stock _) (by decide) (by decide +kernel) rfl x
+
+/-- … the document and the output, spelled out -/
+example : wrapAll [.quote, .bullet '-'] (['a', ' '] ++ spanOf 1 exT ++ [' ', 'b']) =
+      "> - a `` <b>&amp;*x*\\[ `` b".toList ∧
+    spanHtml [.quote, .bullet '-'] (codeHtml (Render.nulStr ['a', ' ']) (Render.nulStr exT) (Render.nulStr [' ', 'b'])) =
+      "<blockquote>\n<ul>\n<li>a <code>&lt;b&gt;&amp;amp;*x*\\[</code> b</li>\n</ul>\n</blockquote>\n".toList := by
+  decide +kernel
+
+/-- the other way round — a block quote in an ordered item: the paragraph stays -/
+example (x : Bool) :
+    renderDoc x (exCfg false 100) (wrapAll [.ordered ['7'] ')', .quote] (['a', ' '] ++ spanOf 1 exT ++ [' ', 'b'])) =
+      .ok (spanHtml [.ordered ['7'] ')', .quote]
+        (codeHtml (Render.nulStr ['a', ' ']) (Render.nulStr exT) (Render.nulStr [' ', 'b']))) :=
+  doc_span_render_nested (exCfg false 100) _ _ _ 1 exLine (by decide +kernel) [.newline, .escape] _ rfl quietTick_stock
+    [.code, .fence, .blockquote, .hr, .list, .reference, .heading, .lheading] [] rfl (by decide)
+    [.ordered ['7'] ')', .quote] (by decide) (chainFor_stock _) (by decide) (by decide +kernel) rfl x
+
+example : wrapAll [.ordered ['7'] ')', .quote] (['a', ' '] ++ spanOf 1 exT ++ [' ', 'b']) =
+      "7) > a `` <b>&amp;*x*\\[ `` b".toList ∧
+    spanHtml [.ordered ['7'] ')', .quote] (codeHtml (Render.nulStr ['a', ' ']) (Render.nulStr exT) (Render.nulStr [' ', 'b'])) =
+      ("<ol start=\"7\">\n<li>\n<blockquote>\n<p>a <code>&lt;b&gt;&amp;amp;*x*\\[</code> b</p>\n</blockquote>\n" ++
+        "</li>\n</ol>\n").toList := by
+  decide +kernel
+
+/-- the same by evaluation, and with the `sourcepos` plugin (`doc_span_render_nested_sp`): the `CodeInline` node
+    carries the position of the whole span -/
+example : renderDoc false (exCfg false 100) "> - a `` <b> `` b".toList =
+      .ok "<blockquote>\n<ul>\n<li>a <code>&lt;b&gt;</code> b</li>\n</ul>\n</blockquote>\n".toList ∧
+    renderDoc false (exCfg true 100) "> - a `` <b> `` b".toList =
+      .ok ("<blockquote data-sourcepos=\"1:1-1:17\">\n<ul data-sourcepos=\"1:3-1:17\">\n<li data-sourcepos=\"1:3-1:17\">" ++
+        "a <code data-sourcepos=\"1:7-1:15\">&lt;b&gt;</code> b</li>\n</ul>\n</blockquote>\n").toList := by
+  decide +kernel
+
+/-- `T` may begin and end with spaces (only the padding pair goes), hold tabs and multi-byte characters (top level) -/
+example (x : Bool) : renderDoc x (exCfg false 100) (['a'] ++ spanOf 0 [' ', 'é', '\t', '€', ' '] ++ []) =
+    .ok ("<p>".toList ++ codeHtml (Render.nulStr ['a']) (Render.nulStr [' ', 'é', '\t', '€', ' ']) (Render.nulStr []) ++
+      "</p>\n".toList) :=
+  doc_span_render (exCfg false 100) _ _ _ 0
+    ⟨⟨'a', [], rfl, by decide⟩, by decide, by decide, by decide, by decide, by decide, by decide, by decide, by decide⟩
+    [.newline, .escape] _ rfl quietTick_stock
+    [.code, .fence, .blockquote, .hr, .list, .reference, .heading, .lheading] [] rfl (by decide) (by decide) rfl x
+
+example : ['a'] ++ spanOf 0 [' ', 'é', '\t', '€', ' '] ++ [] = "a`  é\t€  `".toList ∧
+    "<p>".toList ++ codeHtml (Render.nulStr ['a']) (Render.nulStr [' ', 'é', '\t', '€', ' ']) (Render.nulStr []) ++
+      "</p>\n".toList = "<p>a<code> é\t€ </code></p>\n".toList := by decide +kernel
+
+/-- what the model (= the crate, checked) does with an ALL-SPACE content of three or more spaces: `T = ␠` in the
+    padded form is `` `␠␠␠` ``; the theorem applies and one pair of spaces goes — `<code> </code>`.  (CommonMark:
+    a content consisting entirely of spaces is NOT stripped, `<code>   </code>`; the Rust tests
+    `starts_with(' ') && ends_with(' ') && len() > 2`.)  Two spaces stay two. -/
+example : SpanLine ['a', ' '] [' '] [] 0 ∧ ['a', ' '] ++ spanOf 0 [' '] ++ [] = "a `   `".toList ∧
+    renderDoc false (exCfg false 100) "a `   `".toList = .ok "<p>a <code> </code></p>\n".toList ∧
+    renderDoc false (exCfg false 100) "a `  `".toList = .ok "<p>a <code>  </code></p>\n".toList := by
+  refine ⟨⟨⟨'a', [' '], rfl, by decide⟩, by decide, by decide, by decide, by decide, by decide, by decide, by decide,
+    by decide⟩, by decide +kernel, by decide +kernel, by decide +kernel⟩
+
+/-- `pre` plain is needed: a backtick run in `pre` pairs with the opener (`T` lands outside the code), a backslash
+    at the end of `pre` escapes the opener's first backtick -/
+example : ¬ PlainTxt "a `` ".toList ∧ ¬ PlainTxt "a\\".toList ∧
+    renderDoc false (exCfg false 100) ("a `` ".toList ++ spanOf 1 ['x'] ++ " b".toList) =
+      .ok "<p>a <code> </code> x `` b</p>\n".toList ∧
+    renderDoc false (exCfg false 100) ("a\\".toList ++ spanOf 1 ['x'] ++ []) = .ok "<p>a`` x ``</p>\n".toList := by
+  decide +kernel
+
+/-- … and a `[` in `pre` can put the span into a link (the content is still verbatim, the tree is another) -/
+example : ¬ PlainTxt "a [".toList ∧
+    renderDoc false (exCfg false 100) ("a [".toList ++ spanOf 1 ['x'] ++ "](u)".toList) =
+      .ok "<p>a <a href=\"u\"><code>x</code></a></p>\n".toList := by decide +kernel
+
+/-- `T` free of runs of `k + 1` backticks is needed: the first such run closes the span -/
+example : List.replicate 2 '`' <:+: "x``y".toList ∧
+    renderDoc false (exCfg false 100) ("a ".toList ++ spanOf 1 "x``y".toList ++ " b".toList) =
+      .ok "<p>a <code> x</code>y `` b</p>\n".toList := by
+  refine ⟨⟨['x'], ['y'], by decide⟩, by decide +kernel⟩
+
+/-- the first character: a digit (with `.` and a blank) makes the line a list item, not a paragraph -/
+example : ¬ ParaFirst '1' ∧
+    renderDoc false (exCfg false 100) ("1. ".toList ++ spanOf 1 ['x'] ++ []) = .ok "<ol>\n<li><code>x</code></li>\n</ol>\n".toList := by
+  decide +kernel
+
+/-- no blank at the end of the line (`postEnd`) is a restriction of the statement, not of the behaviour: the
+    trailing blank is dropped by the inline parser's `trim_src`, everything else is as in the theorem -/
+example : renderDoc false (exCfg false 100) ("a ".toList ++ spanOf 1 ['x'] ++ " b ".toList) =
+    .ok "<p>a <code>x</code> b</p>\n".toList := by decide +kernel
+
+/-- `depthCost w < max_nesting` is needed: quote + item cost 3 -/
+example : renderDoc false (exCfg false 3) (wrapAll [.quote, .bullet '-'] ("a ".toList ++ spanOf 1 ['x'] ++ [])) =
+      .ok "<blockquote>\n<ul>\n<li></li>\n</ul>\n</blockquote>\n".toList ∧
+    renderDoc false (exCfg false 4) (wrapAll [.quote, .bullet '-'] ("a ".toList ++ spanOf 1 ['x'] ++ [])) =
+      .ok "<blockquote>\n<ul>\n<li>a <code>x</code></li>\n</ul>\n</blockquote>\n".toList := by
+  decide +kernel
+
+/-- the chain condition `QuietTick` is needed: an emphasis rule for the backtick in front of `backticks` takes the run -/
+example : ¬ QuietTick (.emph '`' true) ∧
+    renderDoc false { exCfg false 100 with inlineChain := [.text, .emph '`' true, .backticks] }
+      ("a ".toList ++ spanOf 1 ['x'] ++ []) = .ok "<p>a `` x ``</p>\n".toList := by
+  refine ⟨fun h => h.2 true rfl, by decide +kernel⟩
+
+/-- MULTI-LINE spans (not covered by the theorems above; by evaluation, the crate agrees).  The block structure
+    comes first: the span's lines are paragraph continuation lines, so a line of `T` that starts a block (`- y`)
+    ends the paragraph and the span with it — a multi-line statement needs "no line of `T` interrupts a paragraph".
+    Where the paragraph goes on, every LF becomes a space and NOTHING else changes: the continuation line's
+    indentation stays (`x␠␠␠␠y`; CommonMark strips it), trailing blanks in front of the LF stay (no hard break);
+    inside a block quote the `> ` prefixes are gone before the inline parser runs. -/
+example : renderDoc false (exCfg false 100) "a `` x\n   y ``".toList = .ok "<p>a <code>x    y</code></p>\n".toList ∧
+    renderDoc false (exCfg false 100) "a `` x  \ny ``".toList = .ok "<p>a <code>x   y</code></p>\n".toList ∧
+    renderDoc false (exCfg false 100) "a `` x\n- y ``".toList =
+      .ok "<p>a `` x</p>\n<ul>\n<li>y ``</li>\n</ul>\n".toList ∧
+    renderDoc false (exCfg false 100) "> a `` x\n> y ``".toList =
+      .ok "<blockquote>\n<p>a <code>x y</code></p>\n</blockquote>\n".toList := by
+  decide +kernel
+
+end examples
 
 end MdIt.C11N
